@@ -86,6 +86,7 @@ type c10Case struct {
 	Seq  []string
 	Reg  int // bitmask over {progress, message, custom}
 	Pad  int
+	HErr int // bitmask over the notifications the client's handlers receive, in order: bit n set = the handler returns an error for the n-th
 }
 
 var c10Methods = []string{"notifications/progress", "notifications/message", "notifications/custom"}
@@ -117,16 +118,24 @@ func c10Cases(tier string) []c10Case {
 				regs = []int{0, 3, 4, 7}
 			}
 			for _, reg := range regs {
-				out = append(out, c10Case{mode, sq, reg, 0})
+				out = append(out, c10Case{mode, sq, reg, 0, 0})
+			}
+			// handlers that return an error for the first, a middle, the last or every notification
+			if len(sq) >= 1 && len(sq) <= 3 {
+				for _, he := range []int{1, 2, 4, 7} {
+					if he < 1<<len(sq) || he == 7 {
+						out = append(out, c10Case{mode, sq, 7, 0, he})
+					}
+				}
 			}
 		}
 		for _, k := range c10Kinds {
-			out = append(out, c10Case{mode, []string{k}, 7, 65537}, c10Case{mode, []string{k, k}, 7, 65537})
+			out = append(out, c10Case{mode, []string{k}, 7, 65537, 0}, c10Case{mode, []string{k, k}, 7, 65537, 0})
 		}
 		// parameter / _meta values of other Go types that encode to the same JSON
 		for _, k := range []string{"generic", "meta-only", "empty-params", "meta-typed", "meta-strmap", "meta-struct", "params-typed"} {
 			for _, reg := range []int{0, 4, 7} {
-				out = append(out, c10Case{mode, []string{k}, reg, 0}, c10Case{mode, []string{"progress", k, "meta"}, reg, 0}, c10Case{mode, []string{k, k, k}, reg, 0})
+				out = append(out, c10Case{mode, []string{k}, reg, 0, 0}, c10Case{mode, []string{"progress", k, "meta"}, reg, 0, 0}, c10Case{mode, []string{k, k, k}, reg, 0, 0})
 			}
 		}
 	}
@@ -139,7 +148,7 @@ type c10Rec struct {
 	before bool // the call had not yet returned
 }
 
-func c10Run(cfg vsched.Config, mode string, calls [][]string, reg int, pad int) (viol []explore.Violation, obs *hx.Log, res *vsched.Result) {
+func c10Run(cfg vsched.Config, mode string, calls [][]string, reg int, pad int, herr int) (viol []explore.Violation, obs *hx.Log, res *vsched.Result) {
 	obs = &hx.Log{}
 	k := func(s string) string { return s + ":" + mode }
 	padS := strings.Repeat("P", pad)
@@ -179,6 +188,11 @@ func c10Run(cfg vsched.Config, mode string, calls [][]string, reg int, pad int) 
 					}
 				}
 				got = append(got, c10Rec{m, hx.CanonOf(n.Params), allPending || len(calls) > 1})
+				if herr&(1<<(len(got)-1)) != 0 {
+					// what the application's handler makes of a notification is its own business: the
+					// remaining notifications and the result still arrive
+					return fmt.Errorf("the application cannot use notification #%d", len(got))
+				}
 				return nil
 			})
 		}
@@ -259,8 +273,8 @@ func c10Run(cfg vsched.Config, mode string, calls [][]string, reg int, pad int) 
 
 func c10Eval(tier string, i int) CaseResult {
 	cs := c10Cases(tier)[i]
-	cr := CaseResult{Desc: fmt.Sprintf("mode=%s seq=%v registered=%03b pad=%d", cs.Mode, cs.Seq, cs.Reg, cs.Pad), Nontrivial: len(cs.Seq) > 0}
-	viol, obs, res := c10Run(vsched.Config{}, cs.Mode, [][]string{cs.Seq}, cs.Reg, cs.Pad)
+	cr := CaseResult{Desc: fmt.Sprintf("mode=%s seq=%v registered=%03b pad=%d handler-errors=%03b", cs.Mode, cs.Seq, cs.Reg, cs.Pad, cs.HErr), Nontrivial: len(cs.Seq) > 0}
+	viol, obs, res := c10Run(vsched.Config{}, cs.Mode, [][]string{cs.Seq}, cs.Reg, cs.Pad, cs.HErr)
 	o := finishOutcome(res, obs, viol, true)
 	cr.ObsKey = cr.Desc + o.ObsKey
 	cr.Violations = o.Violations
@@ -269,18 +283,18 @@ func c10Eval(tier string, i int) CaseResult {
 }
 
 func init() {
-	RegisterEnum(&Enum{Name: "c10/sequences", Doc: "all notification sequences up to length 3 (4 thorough) over {progress, log, custom, custom+_meta, custom+both; plus _meta/params given as mcp.Meta, map[string]string, struct, typed slices} x registered-handler subsets x response mode {SSE, JSON, stateless SSE} x payload size",
+	RegisterEnum(&Enum{Name: "c10/sequences", Doc: "all notification sequences up to length 3 (4 thorough) over {progress, log, custom, custom+_meta, custom+both; plus _meta/params given as mcp.Meta, map[string]string, struct, typed slices} x registered-handler subsets x handlers that return an error (first / middle / last / every notification) x response mode {SSE, JSON, stateless SSE} x payload size",
 		Count: func(tier string) int { return len(c10Cases(tier)) }, Eval: c10Eval})
 	RegisterScenario(&Scenario{Name: "c10/clock", Doc: "one call emitting three notifications; between any two event-id generations the millisecond clock ticks or not (environment deviations)",
 		Run: func(p []int, m []vsched.ChoicePoint) explore.Outcome {
 			cfg := cfgFor(p)
 			cfg.ClockTick = true
-			viol, obs, res := c10Run(cfg, "ss", [][]string{{"progress", "custom", "log"}}, 7, 0)
+			viol, obs, res := c10Run(cfg, "ss", [][]string{{"progress", "custom", "log"}}, 7, 0, 0)
 			return finishOutcome(res, obs, viol, true)
 		}})
 	RegisterScenario(&Scenario{Name: "c10/two-calls", Doc: "two concurrent calls on one client, each emitting two notifications",
 		Run: func(p []int, m []vsched.ChoicePoint) explore.Outcome {
-			viol, obs, res := c10Run(cfgFor(p), "ss", [][]string{{"progress", "custom"}, {"custom", "log"}}, 7, 0)
+			viol, obs, res := c10Run(cfgFor(p), "ss", [][]string{{"progress", "custom"}, {"custom", "log"}}, 7, 0, 2)
 			return finishOutcome(res, obs, viol, true)
 		}})
 	RegisterCheck("C10", func(c *Ctx) {
